@@ -54,6 +54,14 @@ def sh(cmd, timeout=None, cwd=None, mem_gb=None, env=None, stdin=None):
             pass
         out, err = p.communicate()
         to = True
+    if to or p.returncode not in (0, 10):
+        # a killed cbmc leaves its CNF for the external SAT solver behind (up to several GB each, named after its pid)
+        import glob
+        for f in glob.glob(os.path.join(os.environ.get('TMPDIR', '/tmp'), 'external-sat%d.*' % p.pid)):
+            try:
+                os.remove(f)
+            except OSError:
+                pass
     return dict(rc=p.returncode, out=out.decode('utf8', 'replace'), err=err.decode('utf8', 'replace'),
                 timeout=to, wall=time.time() - t0)
 
@@ -451,6 +459,8 @@ def check_property(pid, tier, seed, only_kernel=None, only_job=None, keep=False,
     broken = []
     undecided = []
     not_explored = []
+    wit_native = []
+    wit_native_seen = set()
     samples = []
     obligations = 0
     discharged = 0
@@ -468,8 +478,23 @@ def check_property(pid, tier, seed, only_kernel=None, only_job=None, keep=False,
             elif not wf:
                 # unreachable witness = vacuous harness; only trust that if the main run itself is clean
                 broken.append('%s: vacuity witness NOT reached (%s %s)' % (jid, wit['status'], wit.get('why', '')))
-            elif len(samples) < 12 and wf[0].get('inputs'):
-                samples.append(dict(job=jid, witness_input=wf[0]['inputs']))
+            elif wf[0].get('inputs'):
+                if len(samples) < 12:
+                    samples.append(dict(job=jid, witness_input=wf[0]['inputs']))
+                wkey = (j['kernel'], j['harness'], variant_of(j))
+                if wkey not in wit_native_seen and len(wit_native) < 16 and not j.get('safety'):
+                    # translation validation at one concrete point per (kernel, harness, variant): the solver's witness input is executed on the native ASan/UBSan build of the
+                    # same harness against the real headers; the witness condition must be reached there too and no property assertion may fail on the way.  Informational:
+                    # recorded in the evidence, printed when it diverges, never changes the exit code (harness stubs that are nondeterministic under CBMC can legitimately differ).
+                    wit_native_seen.add(wkey)
+                    try:
+                        rp = run_replay(j['kernel'], j['harness'], wf[0]['inputs'], dict(j.get('defs', {}), WITNESS=1), j.get('harness_file', 'harness.c'), j.get('shim_defs'))
+                        verdict = {3: 'agrees', 1: 'DIVERGED: a property assertion fails natively on an input the solver says satisfies it', 0: 'DIVERGED: witness condition not reached natively'}.get(rp['rc'], 'inconclusive rc=%s' % rp['rc'])
+                    except Exception as e:
+                        verdict = 'inconclusive: %s' % str(e)[:200]
+                    wit_native.append(dict(job=jid, verdict=verdict))
+                    if not verdict.startswith('agrees'):
+                        log('WITNESS-NATIVE %s: %s' % (jid, verdict))
         if main['status'] == 'ok' and wit is not None and wit['status'] == 'undecided':
             pass   # non-vacuity of this job was not established: its assertions are not counted (the job is already listed as undecided / not explored)
         elif main['status'] == 'ok':
@@ -546,6 +571,7 @@ def check_property(pid, tier, seed, only_kernel=None, only_job=None, keep=False,
             functions_encoded=functions,
             stubs={kn: getattr(specs[kn], 'STUB_NOTES', []) for kn in specs},
             selftests=selftests,
+            witness_inputs_replayed_natively=wit_native,
             not_decided=undecided,
             not_explored=not_explored,
             not_explored_rule='deep jobs (present only in the thorough tier) that gave no verdict within their time/memory budget: nothing is claimed for them, they are not counted in obligations/discharged, and they do not fail the run',
